@@ -412,9 +412,35 @@ func TestC31_Notarization(t *testing.T) {
 			}
 			return valid, len(l), bad
 		}
-		// queue entries left behind by an earlier case are void (their rounds are gone)
-		for qm := c31Drain(mc, 0); qm != nil; qm = c31Drain(mc, 0) {
-			st.Class("stale_queue_entry_discarded")
+		// next returns the next queue entry that belongs to this case; entries pushed late by an earlier case
+		// (loaded machine) are void - their rounds are gone - and are discarded
+		mine := func(qm *BlockMessage) bool {
+			switch {
+			case qm.Block != nil:
+				return qm.Block.Hash == B.Hash
+			case qm.BlockVerificationTicket != nil:
+				return qm.BlockVerificationTicket.BlockID == B.Hash
+			case qm.Notarization != nil:
+				return qm.Notarization.BlockID == B.Hash
+			}
+			return false
+		}
+		next := func(wait time.Duration) *BlockMessage {
+			deadline := time.Now().Add(wait)
+			for {
+				left := time.Until(deadline)
+				if left < 0 {
+					left = 0
+				}
+				qm := c31Drain(mc, left)
+				if qm == nil {
+					return nil
+				}
+				if mine(qm) {
+					return qm
+				}
+				st.Class("stale_queue_entry_discarded")
+			}
 		}
 
 		for mi, m := range msgs {
@@ -427,7 +453,7 @@ func TestC31_Notarization(t *testing.T) {
 			}
 			st.Class("message/" + m.Kind)
 			// a message pushed late by an earlier step (loaded machine) is handled before the next one arrives
-			for qm := c31Drain(mc, 0); qm != nil; qm = c31Drain(mc, 0) {
+			for qm := next(0); qm != nil; qm = next(0) {
 				account(qm)
 				c31Dispatch(mc, qm)
 				trace = append(trace, "   (a queue entry of an earlier message was handed over late)")
@@ -474,7 +500,7 @@ func TestC31_Notarization(t *testing.T) {
 				if herr != nil {
 					return
 				}
-				if qm := c31Drain(mc, 40*time.Millisecond); qm != nil {
+				if qm := next(40 * time.Millisecond); qm != nil {
 					validHere, total, _ := account(qm)
 					c31Dispatch(mc, qm)
 					trace = append(trace, fmt.Sprintf("#%d %s %v -> processed", mi, m.Kind, m.Tickets))
@@ -545,7 +571,7 @@ func TestC31_Notarization(t *testing.T) {
 			}
 		}
 		// give the asynchronous parts of the handlers (previous-block update goroutine) a moment and look again
-		if qm := c31Drain(mc, 2*time.Millisecond); qm != nil {
+		if qm := next(2 * time.Millisecond); qm != nil {
 			account(qm)
 			c31Dispatch(mc, qm)
 			st.Class("late_queue_entry_processed")
